@@ -220,6 +220,38 @@ var c05EdgeKinds = []struct {
 
 var c05EdgeShapeNames []string
 
+// evaluable expressions over the boundary integers (exact results are C07's subject; here: the call returns,
+// with a number or an evaluation/type error, never a wedge or a panic) — shapes x.0 … x.N, parsed by the real reader
+var c05Exprs = []string{
+	"9223372036854775807 + 1", "-9223372036854775808 - 1", "9223372036854775807 * 9223372036854775807", "-9223372036854775808 // -1",
+	"-9223372036854775808 mod -1", "-9223372036854775808 rem -1", "-9223372036854775808 div -1", "abs(-9223372036854775808)",
+	"- (-9223372036854775808)", "sign(-9223372036854775808)", "2 ** 9223372036854775807", "2 ^ 9223372036854775807",
+	"2 ^ -9223372036854775808", "1 ^ -9223372036854775808", "-1 ^ 9223372036854775807", "0 ^ -1", "2 ^ -1", "2 ** -1", "0 ** 0", "0.0 ** -1",
+	"1 << 9223372036854775807", "1 >> 9223372036854775807", "1 << -9223372036854775808", "-1 >> 64", "1 << 63", "1 << 64",
+	"2.0 ** 9223372036854775807", "truncate(1.0e300)", "ceiling(-1.0e300)", "round(9.3e18)", "float_integer_part(1.0e300)", "float(9223372036854775807)",
+	"9223372036854775807 / 0", "1 / 0.0", "0 / 0", "9223372036854775807 / -1", "-9223372036854775808 / -1", "max(9223372036854775807, 9.3e18)",
+	"min(-9223372036854775808, -9.3e18)", "\\ 9223372036854775807", "xor(9223372036854775807, -9223372036854775808)", "9223372036854775807 /\\ -1",
+	"atan2(0, 0)", "log(0)", "sqrt(-1)", "acos(2)", "exp(1000)", "sin(1.0e308)", "pi", "foo", "'' + 1", "- ''", "[1]", "\"a\"", "1 + a", "X + 1",
+}
+
+func init() {
+	for k, e := range c05Exprs {
+		e := e
+		name := "x." + fmt.Sprint(k)
+		c05ExprShapeNames = append(c05ExprShapeNames, name)
+		c05ShapeIdxLate = append(c05ShapeIdxLate, c05Shape{name, func(c *c05Ctx) engine.Term {
+			t, err := engine.NewParser(&c.i.VM, strings.NewReader(e+" .")).Term()
+			if err != nil {
+				panic("c05Exprs: " + e + ": " + err.Error())
+			}
+			return t
+		}})
+	}
+}
+
+var c05ExprShapeNames []string
+var c05ShapeIdxLate []c05Shape
+
 // c05BaseCount: the shapes of c05.go (the cross-product matrix runs over these only)
 var c05BaseCount int
 
@@ -233,5 +265,9 @@ func init() {
 			c05ShapeIdx[name] = len(c05Shapes)
 			c05Shapes = append(c05Shapes, c05Shape{name, func(*c05Ctx) engine.Term { return k.mk(atom(ea.text), ea.text) }})
 		}
+	}
+	for _, sh := range c05ShapeIdxLate {
+		c05ShapeIdx[sh.name] = len(c05Shapes)
+		c05Shapes = append(c05Shapes, sh)
 	}
 }
